@@ -493,8 +493,36 @@ func loadLedger() map[string]ledgerEntry {
 
 func cmdLedgerUpdate(args []string) int {
 	// merge the obligation results of the last runs (out/last/<id>.json) into the committed ledger
+	// usage: ledger-update <property>... : replaces the ledger entries of the named properties' functions by the
+	// results of their last (clean) runs
 	led := loadLedger()
-	files, _ := filepath.Glob(filepath.Join(verifDir, "out", "last", "*.json"))
+	if len(args) == 0 {
+		fmt.Fprintln(os.Stderr, "ledger-update needs the property ids whose last run should be recorded")
+		return 2
+	}
+	var files []string
+	for _, id := range args {
+		files = append(files, filepath.Join(verifDir, "out", "last", id+".json"))
+	}
+	// drop stale entries of the functions these runs cover
+	for _, f := range files {
+		var obs []*ObResult
+		data, _ := os.ReadFile(f)
+		if json.Unmarshal(data, &obs) != nil {
+			continue
+		}
+		prefixes := map[string]bool{}
+		for _, o := range obs {
+			if i := strings.Index(o.Name, "#"); i > 0 {
+				prefixes[o.Name[:i+1]] = true
+			}
+		}
+		for k := range led {
+			if i := strings.Index(k, "#"); i > 0 && prefixes[k[:i+1]] {
+				delete(led, k)
+			}
+		}
+	}
 	for _, f := range files {
 		var obs []*ObResult
 		data, _ := os.ReadFile(f)
